@@ -71,6 +71,7 @@ type c19World struct {
 	now    time.Time
 	height int64
 	exts   []c19Ext
+	sxs    []uint64 // stable-mint programs (ids), c19s_test.go
 	ranged bool
 	nacct  map[string]int
 }
@@ -167,10 +168,22 @@ func (w *c19World) acct(bech string) int {
 
 func (w *c19World) poolDenom(pid uint64) string { return liqtypes.PoolCoinDenom(w.fx.appL, pid) }
 
-// the kill switch of an app (what the admin's MsgKillRequest stores)
-func (w *c19World) halted(app uint64) bool {
+// the kill switch of an app (what the admin's MsgKillRequest stores): the only switch DistributeExtRewardLend reads
+func (w *c19World) haltedKS(app uint64) bool {
 	p, _ := w.a.EsmKeeper.GetKillSwitchData(w.ctx, app)
 	return p.BreakerEnable
+}
+
+// kill switch or executed ESM: what the locker / vault distributions and every activation handler read
+func (w *c19World) halted(app uint64) bool {
+	st, found := w.a.EsmKeeper.GetESMStatus(w.ctx, app)
+	return w.haltedKS(app) || (found && st.Status)
+}
+
+// the ESM status of an app switched on / off (the store record MsgExecuteESM writes)
+func (w *c19World) opEsm(app uint64, on bool) {
+	w.a.EsmKeeper.SetESMStatus(w.ctx, esmtypes.ESMStatus{AppId: app, Status: on})
+	w.tr.p("env esmstatus %d %s", app, b2s(on))
 }
 
 func (w *c19World) opHalt(app uint64, on bool) {
@@ -205,6 +218,11 @@ func (w *c19World) st() {
 			ep, _ := k.GetEpochTime(w.ctx, v.EpochId)
 			w.tr.p("x %d 2 %d %s %s %d %d", i, c19DenomCode(v.TotalRewards.Denom), v.AvailableRewards.Amount, b2s(v.IsActive), ep.Count, ep.StartingTime)
 		}
+	}
+	for i, id := range w.sxs {
+		v, _ := k.GetExternalRewardStableVaultByApp(w.ctx, id)
+		ep, _ := k.GetEpochTime(w.ctx, v.EpochId)
+		w.tr.p("sx %d %d %d %s %s %d %d", i, v.AppId, c19DenomCode(v.TotalRewards.Denom), v.AvailableRewards.Amount, b2s(v.IsActive), ep.Count, ep.StartingTime)
 	}
 	for d := 1; d <= 5; d++ {
 		w.tr.p("b %d %s", d, bal(w.a, w.ctx, modAddr(rewardstypes.ModuleName), c19Denoms[d]))
@@ -380,7 +398,7 @@ func (w *c19World) opBegin(dt int64) {
 			w.tr.p("xenv %d %s %d%s", i, tot, n, sb.String())
 		} else if x.kind == 2 {
 			lv := k.GetExternalRewardLend(w.ctx, x.id)
-			if w.halted(lv.AppMappingId) {
+			if w.haltedKS(lv.AppMappingId) {
 				w.tr.p("halt %d 1", i)
 			}
 			w.tr.p("lenv %d %s", i, w.lendEnv(lv))
@@ -411,6 +429,7 @@ func (w *c19World) opBegin(dt int64) {
 			w.tr.p("xenv %d %s %d%s", i, tot, n, sb.String())
 		}
 	}
+	w.stableEnv()
 	before := map[[2]int]sdk.Int{}
 	for _, n := range c19Watched {
 		for d := 1; d <= 5; d++ {
@@ -425,6 +444,7 @@ func (w *c19World) opBegin(dt int64) {
 		cls = "panic"
 	}
 	w.tr.p("res %s", cls)
+	w.stableRecs()
 	for _, n := range c19Watched {
 		for d := 1; d <= 5; d++ {
 			delta := bal(w.a, w.ctx, addrN(n), c19Denoms[d]).Sub(before[[2]int{n, d}])
@@ -756,6 +776,9 @@ func (w *c19World) genEnvOp(g *rng) {
 		} else if g.chance(40) {
 			// the admin turns the kill switch of one of the programs' apps on (usually) or off
 			w.opHalt([]uint64{w.fx.appH, w.fx.appV}[g.intn(2)], g.chance(60))
+		} else if g.chance(35) {
+			// the ESM status of one of the programs' apps: the locker / vault distributions return ErrESMAlreadyExecuted
+			w.opEsm([]uint64{w.fx.appH, w.fx.appV}[g.intn(2)], g.chance(60))
 		}
 	}
 }
